@@ -10,7 +10,7 @@ open LemoModel LemoModel.TxGuard LemoGen.TxWindow
 theorem lifeTime_eq : lifeTime = 1800 := by decide
 theorem bucketDuration_eq : BucketDuration = 60 := rfl
 
-theorem windowOk_iff {t exp : Nat} (he : exp < 2 ^ 64) (ht : t < 2 ^ 64) :
+theorem windowOk_iff {t exp : Nat} (he : exp < 2 ^ 64) :
     windowOk t exp = true ↔ t ≤ exp ∧ exp ≤ t + 1800 := by
   unfold windowOk txExpiredCond txTooFarCond
   by_cases h : exp < t
@@ -24,11 +24,11 @@ theorem bucketIndex_eq (t base : Nat) :
 
 /-- the 30 min / 60 s / stable-time arithmetic: a tx valid in a block of time `tb` whose bucket is
     before the bucket of `T - 1800` is expired at every time `≥ T`. -/
-theorem window_arith {tb exp T tn base : Nat} (he : exp < 2 ^ 64) (ht : tb < 2 ^ 64)
+theorem window_arith {tb exp T tn base : Nat} (he : exp < 2 ^ 64)
     (hvalid : windowOk tb exp = true)
     (hdrop : getBucketIndex tb base < getBucketIndex (T - lifeTime) base)
     (hT : lifeTime ≤ T) (htn : T ≤ tn) : txExpiredCond tn exp = true := by
-  rw [windowOk_iff he ht] at hvalid
+  rw [windowOk_iff he] at hvalid
   rw [lifeTime_eq] at hdrop hT
   simp only [bucketIndex_eq] at hdrop
   unfold txExpiredCond
@@ -116,108 +116,131 @@ theorem grow_spec (tb : Buckets) (i : Nat) (hlc : tb.slots.length ≤ tb.cap) :
     (tb.grow i).timeBase = tb.timeBase ∧ (tb.grow i).slots.length ≤ (tb.grow i).cap ∧ tb.cap ≤ (tb.grow i).cap ∧
     (1 ≤ tb.cap → i < (tb.grow i).slots.length) ∧
     ∀ j x, slotMem (tb.grow i).slots j x ↔ slotMem tb.slots j x := by
-  unfold Buckets.grow
   by_cases hge : i ≥ tb.slots.length
-  · simp only [hge, if_true]
-    generalize hcap : (if i ≥ tb.cap then i * 2 else tb.cap) = cap'
+  · generalize hcap : (if i ≥ tb.cap then i * 2 else tb.cap) = cap'
     have hcl : tb.slots.length ≤ cap' := by rw [← hcap]; split <;> omega
     have hcc : tb.cap ≤ cap' := by rw [← hcap]; split <;> omega
     have htake : (tb.slots ++ List.replicate (cap' - tb.slots.length) ([] : List Nat)).take cap' =
         tb.slots ++ List.replicate (cap' - tb.slots.length) [] := by
       apply List.take_of_length_le; simp; omega
-    rw [htake]
+    have hg : tb.grow i = { tb with cap := cap', slots := tb.slots ++ List.replicate (cap' - tb.slots.length) [] } := by
+      unfold Buckets.grow; rw [if_pos hge]; simp only [hcap, htake]
+    rw [hg]
     refine ⟨rfl, ?_, hcc, ?_, ?_⟩
-    · simp; omega
-    · intro h1; simp; rw [← hcap]; split <;> omega
+    · show (tb.slots ++ List.replicate (cap' - tb.slots.length) ([] : List Nat)).length ≤ cap'
+      simp; omega
+    · intro h1
+      show i < (tb.slots ++ List.replicate (cap' - tb.slots.length) ([] : List Nat)).length
+      simp; rw [← hcap]; split <;> omega
     · intro j x; exact slotMem_pad _ _ _ _
-  · simp only [hge, if_false]
+  · have hg : tb.grow i = tb := by unfold Buckets.grow; rw [if_neg hge]
+    rw [hg]
     exact ⟨rfl, hlc, Nat.le_refl _, fun _ => Nat.lt_of_not_ge hge, fun _ _ => Iff.rfl⟩
+
+theorem add_eq (tb : Buckets) (time hash : Nat) :
+    tb.add time hash =
+      if time / 60 < tb.timeBase / 60 then .errTime else
+      if time / 60 - tb.timeBase / 60 < (tb.grow (time / 60 - tb.timeBase / 60)).slots.length then
+        .ok { tb.grow (time / 60 - tb.timeBase / 60) with
+              slots := (tb.grow (time / 60 - tb.timeBase / 60)).slots.modify (time / 60 - tb.timeBase / 60) (· ++ [hash]) }
+      else .panic := by
+  unfold Buckets.add
+  have hidx := bucketIndex_eq time tb.timeBase
+  generalize getBucketIndex time tb.timeBase = idx at hidx ⊢
+  by_cases h : time / 60 < tb.timeBase / 60
+  · have : idx < 0 := by rw [hidx]; simp only [Int.ofNat_eq_natCast]; omega
+    rw [if_pos this, if_pos h]
+  · have hn : ¬ idx < 0 := by rw [hidx]; simp only [Int.ofNat_eq_natCast]; omega
+    have hi : idx.toNat = time / 60 - tb.timeBase / 60 := by
+      rw [hidx]; simp only [Int.ofNat_eq_natCast]; omega
+    rw [if_neg hn, if_neg h]
+    simp only [hi]
 
 theorem add_errTime_iff (tb : Buckets) (time hash : Nat) :
     tb.add time hash = .errTime ↔ time / 60 < tb.timeBase / 60 := by
-  unfold Buckets.add
-  simp only [bucketIndex_eq]
-  by_cases h : (Int.ofNat (time / 60) - Int.ofNat (tb.timeBase / 60)) < 0
-  · simp only [h, if_true, true_iff]; simp only [Int.ofNat_eq_natCast] at h; omega
-  · simp only [h, if_false]
+  rw [add_eq]
+  by_cases h : time / 60 < tb.timeBase / 60
+  · simp [h]
+  · rw [if_neg h]
     constructor
     · intro h2; split at h2 <;> cases h2
-    · intro h2; simp only [Int.ofNat_eq_natCast] at h; omega
+    · intro h2; exact absurd h2 h
 
 /-- what a successful `Add` does, given the slice invariant `len ≤ cap` -/
 theorem add_ok {tb tb' : Buckets} {time hash : Nat} (hlc : tb.slots.length ≤ tb.cap)
     (h : tb.add time hash = .ok tb') :
     tb'.timeBase = tb.timeBase ∧ tb.timeBase / 60 ≤ time / 60 ∧ tb'.slots.length ≤ tb'.cap ∧ tb.cap ≤ tb'.cap ∧
     ∀ j x, slotMem tb'.slots j x ↔ slotMem tb.slots j x ∨ (j = time / 60 - tb.timeBase / 60 ∧ x = hash) := by
-  unfold Buckets.add at h
-  simp only [bucketIndex_eq] at h
-  by_cases hneg : (Int.ofNat (time / 60) - Int.ofNat (tb.timeBase / 60)) < 0
-  · simp [hneg] at h
-  · simp only [hneg, if_false] at h
-    have hle : tb.timeBase / 60 ≤ time / 60 := by simp only [Int.ofNat_eq_natCast] at hneg; omega
-    have hi : (Int.ofNat (time / 60) - Int.ofNat (tb.timeBase / 60)).toNat = time / 60 - tb.timeBase / 60 := by
-      simp only [Int.ofNat_eq_natCast]; omega
-    rw [hi] at h
+  rw [add_eq] at h
+  by_cases hneg : time / 60 < tb.timeBase / 60
+  · rw [if_pos hneg] at h; cases h
+  · rw [if_neg hneg] at h
     generalize time / 60 - tb.timeBase / 60 = i at h
     obtain ⟨g1, g2, g3, _, g5⟩ := grow_spec tb i hlc
-    split at h
-    · rename_i hlt
+    by_cases hlt : i < (tb.grow i).slots.length
+    · rw [if_pos hlt] at h
       cases h
-      refine ⟨g1, hle, ?_, g3, ?_⟩
-      · simpa [List.length_modify] using g2
+      refine ⟨g1, by omega, ?_, g3, ?_⟩
+      · show ((tb.grow i).slots.modify i (· ++ [hash])).length ≤ (tb.grow i).cap
+        rw [List.length_modify]; exact g2
       · intro j x
         show slotMem ((tb.grow i).slots.modify i (· ++ [hash])) j x ↔ _
         rw [slotMem_modify _ _ _ _ _ hlt, g5]
-    · cases h
+    · rw [if_neg hlt] at h; cases h
 
 theorem add_no_panic {tb : Buckets} {time hash : Nat} (hlc : tb.slots.length ≤ tb.cap) (hc : 1 ≤ tb.cap) :
     tb.add time hash ≠ .panic := by
-  unfold Buckets.add
+  rw [add_eq]
   split
   · intro h; cases h
-  · have := (grow_spec tb (getBucketIndex time tb.timeBase).toNat hlc).2.2.2.1 hc
-    simp only [this, if_true]
+  · have := (grow_spec tb (time / 60 - tb.timeBase / 60) hlc).2.2.2.1 hc
+    rw [if_pos this]
     intro h; cases h
 
 /-! ### Buckets.expire -/
 
-theorem expire_noop {tb : Buckets} {nb : Nat} (h : nb / 60 ≤ tb.timeBase / 60) : tb.expire nb = ([], tb) := by
+/-- `Expire` without the clamp and the Int detour -/
+theorem expire_eq (tb : Buckets) (nb : Nat) :
+    tb.expire nb =
+      if nb / 60 ≤ tb.timeBase / 60 then ([], tb) else
+      ((tb.slots.take (nb / 60 - tb.timeBase / 60)).flatten,
+       { tb with timeBase := nb / 60 * 60, slots := tb.slots.drop (nb / 60 - tb.timeBase / 60) }) := by
   unfold Buckets.expire
-  simp only [bucketIndex_eq]
-  have : (Int.ofNat (nb / 60) - Int.ofNat (tb.timeBase / 60)) ≤ 0 := by
-    simp only [Int.ofNat_eq_natCast]; omega
-  simp [this]
+  have hidx := bucketIndex_eq nb tb.timeBase
+  generalize getBucketIndex nb tb.timeBase = idx at hidx ⊢
+  by_cases h : nb / 60 ≤ tb.timeBase / 60
+  · have : idx ≤ 0 := by rw [hidx]; simp only [Int.ofNat_eq_natCast]; omega
+    rw [if_pos this, if_pos h]
+  · have hn : ¬ idx ≤ 0 := by rw [hidx]; simp only [Int.ofNat_eq_natCast]; omega
+    have hi : idx.toNat = nb / 60 - tb.timeBase / 60 := by
+      rw [hidx]; simp only [Int.ofNat_eq_natCast]; omega
+    rw [if_neg hn, if_neg h]
+    simp only [hi, bucketDuration_eq]
+    generalize nb / 60 - tb.timeBase / 60 = k
+    by_cases hgt : k > tb.slots.length
+    · rw [if_pos hgt]
+      rw [List.take_of_length_le (Nat.le_refl _), List.take_of_length_le (Nat.le_of_lt hgt),
+        List.drop_of_length_le (Nat.le_refl _), List.drop_of_length_le (Nat.le_of_lt hgt)]
+    · rw [if_neg hgt]
+
+theorem expire_noop {tb : Buckets} {nb : Nat} (h : nb / 60 ≤ tb.timeBase / 60) : tb.expire nb = ([], tb) := by
+  rw [expire_eq, if_pos h]
 
 theorem expire_move {tb : Buckets} {nb : Nat} (h : tb.timeBase / 60 < nb / 60) :
     (tb.expire nb).2.timeBase / 60 = nb / 60 ∧ (tb.expire nb).2.timeBase ≤ nb ∧
     (tb.expire nb).2.cap = tb.cap ∧ (tb.expire nb).2.slots.length ≤ tb.slots.length ∧
     (∀ x, x ∈ (tb.expire nb).1 ↔ ∃ j, j < nb / 60 - tb.timeBase / 60 ∧ slotMem tb.slots j x) ∧
     (∀ j x, slotMem (tb.expire nb).2.slots j x ↔ slotMem tb.slots (nb / 60 - tb.timeBase / 60 + j) x) := by
-  unfold Buckets.expire
-  simp only [bucketIndex_eq]
-  have hpos : ¬ (Int.ofNat (nb / 60) - Int.ofNat (tb.timeBase / 60)) ≤ 0 := by
-    simp only [Int.ofNat_eq_natCast]; omega
-  have hk : (Int.ofNat (nb / 60) - Int.ofNat (tb.timeBase / 60)).toNat = nb / 60 - tb.timeBase / 60 := by
-    simp only [Int.ofNat_eq_natCast]; omega
-  simp only [hpos, if_false, hk, bucketDuration_eq]
-  generalize hkk : nb / 60 - tb.timeBase / 60 = k
-  by_cases hgt : k > tb.slots.length
-  · simp only [hgt, if_true]
-    refine ⟨by omega, by omega, rfl, by simp, ?_, ?_⟩
-    · intro x
-      rw [mem_take_flatten]
-      constructor
-      · rintro ⟨j, hj, hm⟩; exact ⟨j, by omega, hm⟩
-      · rintro ⟨j, _, hm⟩; exact ⟨j, slotMem_lt_length hm, hm⟩
-    · intro j x
-      rw [slotMem_drop]
-      constructor
-      · intro hm; have := slotMem_lt_length hm; omega
-      · intro hm; have := slotMem_lt_length hm; omega
-  · simp only [hgt, if_false]
-    refine ⟨by omega, by omega, rfl, by simp, ?_, ?_⟩
-    · intro x; rw [mem_take_flatten]
-    · intro j x; rw [slotMem_drop]
+  rw [expire_eq, if_neg (by omega)]
+  refine ⟨?_, ?_, rfl, ?_, ?_, ?_⟩
+  · show nb / 60 * 60 / 60 = nb / 60
+    omega
+  · show nb / 60 * 60 ≤ nb
+    omega
+  · show (tb.slots.drop (nb / 60 - tb.timeBase / 60)).length ≤ tb.slots.length
+    simp
+  · intro x; exact mem_take_flatten _ _ _
+  · intro j x; exact slotMem_drop _ _ _ _
 
 /-! ### cache -/
 
@@ -325,7 +348,7 @@ theorem mem_delTrace {t : Tracer} {tx : Tx} {p : Nat × Nat} :
   · rintro ⟨h1, h2⟩
     refine ⟨h1, fun hm => ?_⟩
     have := List.contains_iff_mem.2 hm
-    simp [this] at h2
+    rw [this] at h2; cases h2
   · rintro ⟨h1, h2⟩
     refine ⟨h1, ?_⟩
     cases hc : tx.ids.contains p.1 with
